@@ -19,7 +19,8 @@ EXPLANATION = (
     "polynomials and each is one of 1, p, 1-p with p a parameter that check_input confines to (0,1); final state = "
     "the absorbing winning state, losing state absorbing (C08.2); (4) the reader evaluates the unmodified file text "
     "and rejects non-dicts. 'Then solved or reported unsolvable' is C06/C09's claim, not decided here."
-    ' Also: the game writers keep no module-level state between calls (0:state) and change no mutable default argument (0:defaults).')
+    ' Also: the game writers keep no module-level state between calls (0:state) and change no mutable default argument (0:defaults).'
+    ' No one-shot iterator is walked twice or kept at module level (0:iter); no dictionary is keyed by a probability and its complement (0:keys).')
 ASSUMPTIONS = [
     "moves in {0,1,2,3}, loose flags in {0,1}, length x width tables (C15.4/5 for generated boards; an assumption for boards passed in by hand)",
     "the manual entry point performs no parameter validation: positivity of probabilities there is the caller's obligation",
